@@ -182,10 +182,15 @@ pub fn struct_mutate(bytes: &[u8], kind: u64, sel: u64, arg: u64) -> Option<Muta
                 return None;
             }
             let i = 1 + (arg % (v.len() as u64 - 1)) as usize;
-            v[i] = match arg % 3 {
+            let an_assertion = Item::map_flat(vec![Item::tagged(TAG_LEAF, Item::text("knows")), Item::tagged(TAG_LEAF, Item::uint(arg % 7))]);
+            v[i] = match arg % 6 {
                 0 => Item::tagged(TAG_LEAF, Item::uint(arg % 1000)),
                 1 => Item::uint(arg % 1000),
-                _ => Item::tagged(TAG_ENVELOPE, Item::tagged(TAG_LEAF, Item::uint(3))),
+                2 => Item::tagged(TAG_ENVELOPE, Item::tagged(TAG_LEAF, Item::uint(3))),
+                // a node whose subject is not an assertion (it has assertions of its own, but it is not one)
+                3 => Item::array(vec![Item::tagged(TAG_LEAF, Item::text("Bob")), an_assertion]),
+                4 => Item::array(vec![Item::uint(arg % 50), an_assertion]),
+                _ => Item::array(vec![Item::tagged(TAG_ENVELOPE, Item::tagged(TAG_LEAF, Item::uint(1))), an_assertion]),
             };
             m(&top, "cbor.struct.non-assertion-in-slot", true)
         }
